@@ -124,6 +124,8 @@ Recv(e) ==
           /\ ((framing /\ clean /\ allValid /\ ~mustFail /\ Len(e.msgs) = f.n) => Check(StateMatches(e, expd.post), "C08", "StateAfterReceive"))
        ELSE IF e.res = "ProtocolError" THEN
           /\ (framing /\ clean /\ ~mayFail => Verdict("C02", "SpuriousError"))
+          \* ... and for a client these were responses of operations in progress, which C09 says are accepted
+          /\ (framing /\ clean /\ ~mayFail /\ role = "client" => Verdict("C09", "ValidResponseRejected"))
           /\ Check(e.state = "CLOSED", "C05", "FailClosed")
           /\ Check(e.msgs = <<>>, "C05", "ErrorReturnsNothing")
           /\ (e.resp # <<>> =>
